@@ -5,7 +5,7 @@
 (* bytes it writes, streams it encodes with one and two states) and from   *)
 (* the real decoder's tables, judged with the operators of FSE.            *)
 (***************************************************************************)
-EXTENDS FSE, Json, IOUtils
+EXTENDS FSE, Json, IOUtils, TLCExt
 
 Rows == ndJsonDeserialize(IOEnv.ROWS)
 
@@ -35,17 +35,44 @@ OkPredef(r) == LET probs == CASE r.which = "ll" -> LLDef [] r.which = "ml" -> ML
                   /\ (r.side = "dec" => OkTable([al |-> al, probs |-> probs, table |-> r.table]))
                   /\ (r.side = "enc" => StatesMatch(al, probs, r.states))
 
+\* the table descriptions the compressor wrote in front of one block's sequence bitstream (order: literal lengths,
+\* offsets, match lengths; mode 2 = FSE description, mode 1 = one byte, modes 0 / 3 = nothing), read with ReadDesc
+MaxLogs == <<9, 8, 9>>                  \* RFC 8878 3.1.1.3.2.1
+MaxSyms == <<36, 32, 53>>
+NoTable(n) == [al |-> 0, probs |-> <<>>, used |-> n]
+TableAt(bytes, mode) == IF mode = 2 THEN ReadDesc(bytes \o <<0>>) ELSE NoTable(IF mode = 1 THEN 1 ELSE 0)
+Written(r) == LET t1 == TableAt(r.bytes, r.modes[1])
+                  b1 == SubSeq(r.bytes, t1.used + 1, Len(r.bytes))
+                  t2 == TableAt(b1, r.modes[2])
+                  b2 == SubSeq(b1, t2.used + 1, Len(b1))
+                  t3 == TableAt(b2, r.modes[3])
+              IN <<t1, t2, t3>>
+\* <<within the format's limits and able to encode every code the block uses (the property),
+\*   accuracy log as ParseClasses!ChosenLog predicts for the class's histogram (as built, conformance only)>>
+JudgeWritten(r) == LET ts == Written(r)
+                       codes == <<r.ll_codes, r.of_codes, r.ml_codes>>
+                       fi == CASE r.field = "ll" -> 1 [] r.field = "of" -> 2 [] r.field = "ml" -> 3
+                   IN << \A i \in 1..3 : r.modes[i] = 2 =>
+                            /\ ts[i].al >= 5 /\ ts[i].al <= MaxLogs[i]
+                            /\ Normalised(ts[i].al, ts[i].probs)
+                            /\ Len(ts[i].probs) <= MaxSyms[i]
+                            /\ \A j \in 1..Len(codes[i]) : codes[i][j] + 1 <= Len(ts[i].probs) /\ ts[i].probs[codes[i][j] + 1] # 0,
+                         r.modes[fi] = 2 => ts[fi].al = r.class_al >>
+
 Ok(r) == CASE r.k = "enc" -> OkEnc(r)
            [] r.k = "stream" -> OkStream(r)
            [] r.k = "table" -> OkTable(r)
            [] r.k = "predef" -> OkPredef(r)
+           [] r.k = "written" -> JudgeWritten(r)[1]
 
 VARIABLE x
 Init == x = 0
 Next == /\ x = 0 /\ x' = 1
-        /\ LET bad == {i \in 1..Len(Rows) : ~Ok(Rows[i])}
+        /\ LET J == TLCEval([i \in 1..Len(Rows) |-> IF Rows[i].k = "written" THEN JudgeWritten(Rows[i]) ELSE <<Ok(Rows[i]), TRUE>>])
+               bad == {i \in 1..Len(Rows) : ~J[i][1]}
                kinds == {Rows[i].k : i \in 1..Len(Rows)}
-           IN PrintT(<<"ROWS", Len(Rows), "BAD", Cardinality(bad), kinds,
+           IN /\ PrintT(<<"DRIFT", Cardinality({i \in 1..Len(Rows) : J[i][1] /\ ~J[i][2]})>>)
+              /\ PrintT(<<"ROWS", Len(Rows), "BAD", Cardinality(bad), kinds,
                        IF bad = {} THEN <<>> ELSE LET S == {i \in bad : \A j \in bad : i <= j} IN <<Rows[CHOOSE i \in S : TRUE]>>>>)
 Spec == Init /\ [][Next]_x
 =============================================================================
